@@ -438,12 +438,13 @@ pub fn run_c06(rep: &Report) -> i32 {
     });
     {
         run_c06_huge(rep);
+        run_c06_construction(rep);
     }
     let ev = rep.get("searches");
     let cov = J::obj()
         .set("evaluations", J::i(ev.max(1)))
         .set("distinct_nontrivial", J::i(rep.get("haystacks_with_match")))
-        .set("rule", J::s("for every packed variant (Rabin-Karp, slim Teddy 128, slim Teddy 256, fat Teddy 256, default heuristics; fingerprint length = min(4, shortest pattern)) x leftmost-first/longest x pattern family x core (all strings <= 2/3 over the family alphabet, each pattern, pattern.pattern, prefix.pattern, suffix.pattern, every one-byte near miss) x filler (clean, low-nybble decoy, high-nybble decoy) x every offset i x tail j: find_in on the whole haystack and on 5 span forms (every span for short haystacks in thorough) and find_iter, compared with SPEC leftmost selection over the occurrence set; plus six lists with a 65535 / 65536 / 65539-byte pattern and its 8-byte prefix (both orders) on four haystacks, every variant. A haystack is non-trivial when it contains at least one occurrence"))
+        .set("rule", J::s("for every packed variant (Rabin-Karp, slim Teddy 128, slim Teddy 256, fat Teddy 256, default heuristics; fingerprint length = min(4, shortest pattern)) x leftmost-first/longest x pattern family x core (all strings <= 2/3 over the family alphabet, each pattern, pattern.pattern, prefix.pattern, suffix.pattern, every one-byte near miss) x filler (clean, low-nybble decoy, high-nybble decoy) x every offset i x tail j: find_in on the whole haystack and on 5 span forms (every span for short haystacks in thorough) and find_iter, compared with SPEC leftmost selection over the occurrence set; plus six lists with a 65535 / 65536 / 65539-byte pattern and its 8-byte prefix (both orders) on four haystacks, every variant; plus the construction contract: 14 lists (incl. an empty pattern first / middle / last, 64..300 patterns) x 7 ways of obtaining a searcher (Searcher::new, builder(), config(), add one by one, Default impls, toggled force options): either no searcher is returned or it agrees with SPEC for the whole list; Builder::len / minimum_len / match_kind. A haystack is non-trivial when it contains at least one occurrence"))
         .set("variants_exercised", J::i(rep.set_len("variants_exercised") as i64))
         .set("exhaustive", J::Bool(true))
         .set("bounds", J::s(format!("total haystack length <= {}; offsets 0..={}; vector width considered {}", 2 * V + 8, imax(4, t), V)))
@@ -566,6 +567,154 @@ fn run_c06_huge(rep: &Report) {
     });
 }
 
+/// The construction side of C06: whatever way a packed searcher is obtained,
+/// and whatever the pattern list (also lists the packed searcher does not
+/// support: an empty pattern, more than 128 patterns), the outcome is either
+/// "no searcher" or a searcher that agrees with SPEC for the WHOLE list.
+fn run_c06_construction(rep: &Report) {
+    let mut lists: Vec<(String, Pats)> = vec![
+        ("normal".into(), vec![b("foo"), b("bar"), b("baz"), b("quux")]),
+        ("empty-first".into(), vec![b(""), b("foo"), b("bar")]),
+        ("empty-middle".into(), vec![b("foo"), b(""), b("bar")]),
+        ("empty-last".into(), vec![b("foo"), b("bar"), b("")]),
+        ("empty-only".into(), vec![b("")]),
+        ("empty-twice".into(), vec![b("foo"), b(""), b("bar"), b(""), b("baz")]),
+    ];
+    for n in [64usize, 65, 127, 128, 129, 130, 200, 300] {
+        lists.push((format!("n{}", n), (0..n).map(|i| format!("{}{:03}x", (b'a' + (i % 23) as u8) as char, i).into_bytes()).collect()));
+    }
+    let forms = ["Config::new().builder().extend", "Searcher::new", "Searcher::builder().extend", "Builder::new().add one by one", "Builder::default + Config::default", "Searcher::config() with only_teddy(true) then only_teddy(false)", "only_rabin_karp(true) then only_rabin_karp(false)"];
+    let mut items = vec![];
+    for l in 0..lists.len() {
+        for kind in [Kind::LF, Kind::LL] {
+            for f in 0..forms.len() {
+                items.push((l, kind, f));
+            }
+        }
+    }
+    let desc = |i: usize| format!("construction {} {} {}", lists[items[i].0].0, items[i].1.name(), forms[items[i].2]);
+    par_for_desc(rep, items.len(), &desc, |ix, st| {
+        let (l, kind, f) = items[ix];
+        let (name, pats) = (&lists[l].0, &lists[l].1);
+        let mk = if kind == Kind::LL { packed::MatchKind::LeftmostLongest } else { packed::MatchKind::LeftmostFirst };
+        if f == 1 && kind == Kind::LL {
+            return; // Searcher::new has no match kind parameter (leftmost-first)
+        }
+        let built = catch_unwind(AssertUnwindSafe(|| -> (Option<packed::Searcher>, Option<(usize, usize)>) {
+            match f {
+                0 => {
+                    let mut c = packed::Config::new();
+                    c.match_kind(mk);
+                    let mut bl = c.builder();
+                    bl.extend(pats.iter());
+                    (bl.build(), Some((bl.len(), bl.minimum_len())))
+                }
+                1 => (packed::Searcher::new(pats.iter()), None),
+                2 => {
+                    let mut c = packed::Searcher::config();
+                    c.match_kind(mk);
+                    let mut bl = c.builder();
+                    bl.extend(pats.iter());
+                    (bl.build(), None)
+                }
+                3 => {
+                    let mut c = packed::Config::new();
+                    c.match_kind(mk);
+                    let mut bl = c.builder();
+                    for p in pats.iter() {
+                        bl.add(p);
+                    }
+                    (bl.build(), Some((bl.len(), bl.minimum_len())))
+                }
+                4 => {
+                    let mut c = packed::Config::default();
+                    c.match_kind(mk);
+                    let mut bl = c.builder();
+                    bl.extend(pats.iter());
+                    (bl.build(), None)
+                }
+                5 => {
+                    let mut c = packed::Searcher::config();
+                    c.match_kind(mk).only_teddy(true).only_teddy(false);
+                    let mut bl = c.builder();
+                    bl.extend(pats.iter());
+                    (bl.build(), None)
+                }
+                _ => {
+                    let mut c = packed::Config::new();
+                    c.match_kind(mk).only_rabin_karp(true).only_rabin_karp(false);
+                    let mut bl = c.builder();
+                    bl.extend(pats.iter());
+                    (bl.build(), None)
+                }
+            }
+        }));
+        st.add("constructions", 1);
+        let mut bad = |what: &str, h: &[u8], detail: String| {
+            rep.violation(Violation {
+                property: rep.property.clone(),
+                what: what.into(),
+                case: packed_case(pats, kind, PVar::Default, h, 0, h.len(), "construction").set("form", J::i(f as i64)).set("list", J::s(name.clone())),
+                detail: format!("{} {} via {}: {}", name, kind.name(), forms[f], detail),
+                tags: vec![("kind".into(), kind.name().into())],
+            });
+        };
+        let (sr, meta) = match built {
+            Ok(x) => x,
+            Err(p) => {
+                bad("packed-build-panic", &[], format!("construction panicked: {}", crate::aut::panic_msg(&p)));
+                return;
+            }
+        };
+        let supported = pats.len() <= 128 && pats.iter().all(|p| !p.is_empty());
+        if let (Some((len, minlen)), true) = (meta, supported) {
+            if len != pats.len() || minlen != pats.iter().map(|p| p.len()).min().unwrap_or(0) {
+                bad("packed-builder-metadata", &[], format!("Builder::len() = {}, minimum_len() = {} for {} patterns with shortest {}", len, minlen, pats.len(), pats.iter().map(|p| p.len()).min().unwrap_or(0)));
+            }
+        }
+        let sr = match sr {
+            Some(s) => s,
+            None => {
+                st.add("constructions_declined", 1);
+                return;
+            }
+        };
+        if *sr.match_kind() != mk && f != 1 {
+            bad("packed-match-kind", &[], format!("match_kind() reports {:?}, configured {:?}", sr.match_kind(), mk));
+        }
+        let spec = Spec::new(pats.clone(), false);
+        let mut hays: Vec<Vec<u8>> = vec![vec![], b("foo"), b("xxfoobar"), b("..................................................")];
+        let mut all = vec![];
+        for p in pats.iter().take(40) {
+            all.extend_from_slice(p);
+            all.push(b'.');
+        }
+        hays.push(all);
+        for p in [&pats[0], &pats[pats.len() - 1], &pats[pats.len() / 2]] {
+            let mut h = vec![b'.'; 37];
+            h.extend_from_slice(p);
+            h.extend_from_slice(b"...");
+            hays.push(h);
+        }
+        for h in &hays {
+            let exp = spec.find(kind, h, 0, h.len(), false);
+            let got = catch_unwind(AssertUnwindSafe(|| sr.find(h).map(mm)));
+            st.add("searches", 1);
+            if got.as_ref().ok() != Some(&exp) {
+                bad("packed-find-mismatch", h, format!("a searcher WAS built; find(\"{}\"): got {:?}, SPEC for the whole list {:?}", show_short(h), got.map_err(|p| crate::aut::panic_msg(&p)), exp));
+                return;
+            }
+            let exp_it = spec.iter(kind, h, 0, h.len(), false);
+            let got_it = catch_unwind(AssertUnwindSafe(|| sr.find_iter(h).take(h.len() + 2).map(mm).collect::<Vec<M>>()));
+            st.add("searches", 1);
+            if got_it.as_ref().ok() != Some(&exp_it) {
+                bad("packed-iter-mismatch", h, format!("a searcher WAS built; find_iter(\"{}\"): got {:?}, SPEC for the whole list {:?}", show_short(h), got_it.map_err(|p| crate::aut::panic_msg(&p)), exp_it));
+                return;
+            }
+        }
+    });
+}
+
 fn run_c05_huge(rep: &Report) {
     let lists = huge_lists();
     let mut items = vec![];
@@ -631,6 +780,12 @@ fn packed_case(pats: &Pats, kind: Kind, var: PVar, h: &[u8], s: usize, e: usize,
 }
 
 pub fn replay_packed(case: &J) -> i32 {
+    if case.str_of("api") == "construction" {
+        let rep = Report::new("C06", "quick");
+        run_c06_construction(&rep);
+        println!("construction contract re-run (list {}): {} violation(s)", case.str_of("list"), rep.nviol());
+        return (rep.nviol() > 0) as i32;
+    }
     let pats = crate::report::pats_from_j(case.get("patterns").unwrap_or(&J::Null));
     let kind = Kind::from_name(&case.str_of("kind"));
     let var = PVar::from_name(&case.str_of("variant"));
